@@ -270,43 +270,56 @@ func receiverValue(x *lc, h int) (evals, bad int) {
 		}
 		for jk := 0; jk < nprev; jk++ {
 			j := jk % len(x.e.vals)
-			var recv any
 			how := "constructed as"
-			if h == 1 {
-				recv = build(x.seed, x.e, j)
-			} else if h == 3 {
+			// mk builds the receiver in the state it has before the decode under test (nil: not possible); it is
+			// called again when a difference has to be attributed to a component
+			mk := func() any { return build(x.seed, x.e, j) }
+			switch h {
+			case 3:
 				how = "grown from"
-				// (a private deep copy: catalogue values may share rings with the parameter sets of the world, and
-				// grow appends in place)
-				cp := reflect.New(reflect.TypeOf(x.o.obj).Elem())
-				cp.Elem().Set(deepCopy(reflect.ValueOf(build(x.seed, x.e, j)).Elem()))
-				recv = cp.Interface()
-				grow(recv)
-			} else if h == 4 {
+				mk = func() any {
+					// (a private deep copy: catalogue values may share rings with the parameter sets of the world,
+					// and grow appends in place)
+					cp := reflect.New(reflect.TypeOf(x.o.obj).Elem())
+					cp.Elem().Set(deepCopy(reflect.ValueOf(build(x.seed, x.e, j)).Elem()))
+					grow(cp.Interface())
+					return cp.Interface()
+				}
+			case 4:
 				k := jk / len(x.e.vals)
 				how = fmt.Sprintf("having decoded [%s] and then", x.e.vals[k].label)
-				refk, okk := original(x.seed, x.e, k).ref(d)
-				refj, okj := original(x.seed, x.e, j).ref(d)
-				if !okk || !okj {
-					continue
+				mk = func() any {
+					refk, okk := original(x.seed, x.e, k).ref(d)
+					refj, okj := original(x.seed, x.e, j).ref(d)
+					if !okk || !okj {
+						return nil
+					}
+					r := freshLike(x.o.obj)
+					if _, o := x.decodeInto(d, r, refk); o.err != nil || o.panicked != nil {
+						return nil
+					}
+					if _, o := x.decodeInto(d, r, refj); o.err != nil || o.panicked != nil {
+						return nil
+					}
+					return r
 				}
-				recv = freshLike(x.o.obj)
-				if _, o := x.decodeInto(d, recv, refk); o.err != nil || o.panicked != nil {
-					continue
-				}
-				if _, o := x.decodeInto(d, recv, refj); o.err != nil || o.panicked != nil {
-					continue
-				}
-			} else {
+			case 2:
 				how = "having decoded"
-				refj, okj := original(x.seed, x.e, j).ref(d)
-				if !okj {
-					continue
+				mk = func() any {
+					refj, okj := original(x.seed, x.e, j).ref(d)
+					if !okj {
+						return nil
+					}
+					r := freshLike(x.o.obj)
+					if _, o := x.decodeInto(d, r, refj); o.err != nil || o.panicked != nil {
+						return nil // value j does not decode: reported by its own leaf
+					}
+					return r
 				}
-				recv = freshLike(x.o.obj)
-				if _, o := x.decodeInto(d, recv, refj); o.err != nil || o.panicked != nil {
-					continue // value j does not decode: reported by its own leaf
-				}
+			}
+			recv := mk()
+			if recv == nil {
+				continue
 			}
 			if j == x.vi {
 				x.c.Cover("history", "same-value")
@@ -322,7 +335,7 @@ func receiverValue(x *lc, h int) (evals, bad int) {
 				bad++
 				x.c.Fail(sig("receiver", x.e.name+"."+d.method, "error"), "%s [%s] via %s, %s: %v", x.e.name, x.label(), d.name, prev, o.err)
 			default:
-				if v := x.judge(d, recv, n); v.kind != "" {
+				if v := x.judgePre(d, recv, n, mk); v.kind != "" {
 					bad++
 					x.c.Fail(sig("receiver", x.subjectFor(d, v), v.kind), "%s [%s] via %s, %s: %s", x.e.name, x.label(), d.name, prev, v.msg)
 				}
@@ -396,7 +409,7 @@ func streamable(e *entry, o *cached) bool {
 		recv := freshLike(o.obj)
 		var n int64
 		out := guard(func() (err error) { n, err = recv.(io.ReaderFrom).ReadFrom(buffer.NewBuffer(o.wbin)); return })
-		v = out.err == nil && out.panicked == nil && judgeAgainst(e, o.obj, o.wbin, decoders[1], recv, n).kind == ""
+		v = out.err == nil && out.panicked == nil && judgeAgainst(e, o.obj, o.wbin, decoders[1], recv, n, nil).kind == ""
 	}
 	streamableCache[o] = v
 	return v
@@ -474,7 +487,7 @@ func streamABA(x *lc, be *entry, bo *cached, bvi int, sr streamReader) {
 			x.c.Fail(sig("stream", subj, "cursor"), "%s: reader cursor at %d, expected %d", where, got, pos)
 			return
 		}
-		if v := judgeAgainst(ents[i], o.obj, o.wbin, decoders[1], recv, n); v.kind != "" {
+		if v := judgeAgainst(ents[i], o.obj, o.wbin, decoders[1], recv, n, nil); v.kind != "" {
 			if v.subject != "" {
 				subj = v.subject
 			}
